@@ -11,7 +11,9 @@ from .common import pmap
 
 WS = " \t\n\x0b\x0c\r\x85\xa0                　"
 STRS = ["", "a", "abc", "Hello World", "  lead", "trail  ", " \t both \n", "ünï cödé", "日本語テキスト", "áb", "MiXeD cAsE", "x.y.z", "aaa", "abab", "a b  c", "　ideographic　",
-        "1234567890", "line1\nline2", "q'uote", "ÉCOLE", "straße", "ΑΒΓ αβγ", "Привет мир", "tab\tsep", "é"]
+        "1234567890", "line1\nline2", "q'uote", "ÉCOLE", "straße", "ΑΒΓ αβγ", "Привет мир", "tab\tsep", "é",
+        # texts whose standard Base64 contains `+` and `/` (6-bit groups 62 and 63)
+        "ab~", "???", "x?y?z?", "a>>", "\uffff", "subjects?_d=1~"]
 NUMS = ["0", "1", "-1", "7", "255", "256", "1024", "-255", "9223372036854775807", "-9223372036854775808", "2.5", "-2.5", "1e3", "0.1", "100", "16", "2", "10", "x", "", "1.5e300", "-0", "3.0"]
 
 
@@ -217,6 +219,8 @@ def run(ctx):
         hres = Harness().batch([{"cmd": "func", "f": f, "arg": a, "args": ar} for f, a, ar in calls])
     except Exception as e:
         ctx.notes.append("harness: fallback-binary-only (%s)" % str(e)[:200])
+        ctx.violation("correspondence-mismatch", "the real functions could not be reached through the harness (#[path] inclusion of /repo/src): %s" % str(e)[:300], input={}, concrete=False,
+                      correspondence="harness build / run")
         hres = [None] * len(calls)
     for (f, a, ar), hr in zip(calls, hres):
         if hr is None:
@@ -271,7 +275,8 @@ def run(ctx):
     # (2) the binary: functions on column values and nested calls
     base = os.path.join(ctx.scratch, "c16")
     os.mkdir(base)
-    names = ["Hello World.TXT", "  spaced  name ", "ünï cödé.rs", "abcabc", "x", "日本.txt", "UPPER", "lower.tar.gz"]
+    names = ["Hello World.TXT", "  spaced  name ", "ünï cödé.rs", "abcabc", "x", "日本.txt", "UPPER", "lower.tar.gz",
+             "ab~", "x?y?z?", "a>>", "\uffff.bin"]          # names whose standard Base64 contains `+` and `/`
     fstree.build(base, [{"name": "t", "kind": "dir", "kids": [{"name": n, "kind": "file", "size": i * 37, "mtime": 1709164800 + i * 86400 * 40} for i, n in enumerate(names)]}])
     nest = []
     one_arg = ["lower", "upper", "trim", "initcap", "to_base64", "length", "ltrim", "rtrim"]
@@ -281,6 +286,7 @@ def run(ctx):
         if "length" in chain[:-1]:
             chain = [c for c in chain if c != "length"] + ["length"]
         nest.append(chain)
+    nest += [["to_base64"], ["to_base64", "length"], ["upper", "to_base64"], ["to_base64", "lower"]]
 
     def apply_chain(chain, s):
         v = s
